@@ -157,9 +157,7 @@ def entry_case(rng, tmpdir, i):
     if entry == "reduce_pack":
         return reduce_pack_case(rng, schema, rows, offered, ragged)
     if entry == "astype_nested":
-        # a cast to a nested dtype announcing a field the column does not have: Arrow fills it with a NULL list in every row,
-        # so every present row that holds elements becomes ragged - the cast is an entry point like the others
-        offered, ragged = rows, any(r is not None and any(len(v) for v in r.values()) for r in rows)
+        return astype_nested_case(rng, schema, rows, layout, i)
     # a special physical form for the constructor: every field a window of list arrays built over ONE shared offsets array,
     # the windows shifted against each other (field j starts at row j): rectangular iff neighbouring rows have equal lengths
     shared = None
@@ -218,10 +216,6 @@ def entry_case(rng, tmpdir, i):
                 return pack_lists(df).array
             df["base"] = range(len(df))
             return NestedFrame.from_lists(NestedFrame(df), base_columns=["base"], name="n")["n"].array
-        if entry == "astype_nested":
-            src = pd.Series(NEA(struct_from_rows(rng, schema, offered, layout)))
-            wider = pa.struct(list(st) + [pa.field("zz_extra", pa.list_(pa.float64()))])
-            return src.astype(NestedDtype(wider)).array
         if entry == "astype":
             ca = struct_from_rows(rng, schema, offered, layout)
             s = pd.Series(ca, dtype=pd.ArrowDtype(st))
@@ -247,11 +241,6 @@ def entry_case(rng, tmpdir, i):
     else:
         want_rows = rows
     want = core.logical(pa.chunked_array([pa.array(want_rows, type=st)], type=st))
-    if entry == "astype_nested":
-        wider = pa.struct(list(st) + [pa.field("zz_extra", pa.list_(pa.float64()))])
-        cast_rows = [None if r is None else dict(r, zz_extra=None) for r in rows]
-        ph = core.phys(pa.chunked_array([pa.array(cast_rows, type=wider)], type=wider))      # what the struct cast hands to the validator
-        want = core.logical(pa.chunked_array([pa.array([None if r is None else dict(r, zz_extra=[]) for r in rows], type=wider)], type=wider))
     if res[0] == "ok":
         impl_term, pq_, lg2, raised = ao.col_result(res)
     else:
@@ -306,6 +295,55 @@ def reduce_pack_case(rng, schema, rows, offered, ragged):
             "meta": {"impl_raised": res[0] == "err", "ragged": really_ragged, "entry": "reduce_pack"},
             "sig": ["reduce_pack", really_ragged, n, len(schema)], "trivial": False,
             "hist": {"op": "entry_reduce_pack", "ragged": really_ragged, "raised": res[0] == "err"}}
+    return with_monitor(case, born)
+
+
+def astype_nested_case(rng, schema, rows, layout, i):
+    """a cast between nested dtypes (Cast.v): to a dtype announcing a field the column lacks (Arrow fills it with a NULL list in
+    every row: every present row holding elements would be ragged - refused), to a re-ordering / selection of the fields,
+    to the column's own dtype"""
+    st = gen.struct_type(schema)
+    names = [n for n, _ in schema]
+    holds = any(r is not None and any(len(v) for v in r.values()) for r in rows)
+    variant = ["widen", "reorder", "same", "widen_first"][(i // 32) % 4]
+    if variant.startswith("widen") and not holds:
+        variant = "same"
+    extra = ("zz_extra", "double")
+    if variant == "widen":
+        target = list(schema) + [extra]
+    elif variant == "widen_first":
+        target = [extra] + list(schema)
+    elif variant == "reorder":
+        target = list(reversed(schema))[: max(1, len(schema) - (i // 128) % 2)]
+    else:
+        target = list(schema)
+    tst = gen.struct_type(target)
+    src_ca = struct_from_rows(rng, schema, rows, layout)
+    src = attempt(lambda: pd.Series(NEA(src_ca)))
+    if src[0] != "ok":
+        return {"stream": "entry", "op": "entry_astype_nested", "term": "[true; false; true; true]", "input": {"rows": ao.rows_repr(rows)},
+                "impl_repr": "a well-formed column was refused by the constructor: " + str(src[1]), "meta": {"impl_raised": True},
+                "sig": ["astype_nested", "constructor"], "trivial": False, "hist": {"op": "entry_astype_nested", "raised": True}}
+    with Born() as born:
+        res = attempt(lambda: src[1].astype(NestedDtype(tst)).array)
+    ph = core.phys(src[1].array.chunked_array)
+    if res[0] == "ok":
+        impl_term, pq_, lg2, raised = ao.col_result(res)
+    else:
+        impl_term, pq_, raised = "Err", "None", True
+    if variant.startswith("widen"):
+        spec = "Err"
+    else:
+        want = core.logical(pa.chunked_array([pa.array([None if r is None else {k: r[k] for k, _ in target} for r in rows], type=tst)], type=tst))
+        spec = f"(Ok {cq_lcol(want)})"
+    term = (f"(match chk_astype {cq_phys(ph)} {core.cq_schema([(n_, core.ety_of(gen.TYPES[t_])) for n_, t_ in target])} ({spec} : res lcol) "
+            f"({impl_term} : res lcol) with [a; b; c; s] => [a; b; c && match {pq_} with Some q => wf_b q | None => true end; s] | l => l end)")
+    case = {"stream": "entry", "op": "entry_astype_nested", "term": term,
+            "input": {"schema": schema, "rows": ao.rows_repr(rows), "target": target, "variant": variant, "layout": layout},
+            "impl_repr": "raised " + res[1] if res[0] == "err" else "stored",
+            "meta": {"impl_raised": raised, "ragged": variant.startswith("widen"), "entry": "astype_nested"},
+            "sig": ["astype_nested", variant, layout, len(rows), len(schema)], "trivial": False,
+            "hist": {"op": "entry_astype_nested_" + variant, "ragged": variant.startswith("widen"), "raised": raised}}
     return with_monitor(case, born)
 
 
